@@ -173,7 +173,7 @@ class Facts:
         from .inline import inline_new_functions, expose_error_conversions
         d, self.conversions = expose_error_conversions(d)
         d, self.inlined = inline_new_functions(d)
-        from .inline import desugar_combinators, thread_known_variants
+        from .inline import desugar_combinators, thread_known_variants, fold_constant_variant_switches
         d, self.desugared = desugar_combinators(d)
         # the bool a `matches!(x, P)` leaves in a compiler temporary is tested right away: the
         # test is threaded to the arm that set it, in every body (known Result / Option / Try
@@ -181,11 +181,35 @@ class Facts:
         self.threaded = 0
         for b in d["bodies"]:
             if b["kind"] != "promoted" and not b.get("in_test") and not b.get("derived"):
+                self.threaded += fold_constant_variant_switches(b)
                 n1 = thread_known_variants(b, bools=True, budget=40)
                 self.threaded += n1
                 if n1:
                     # a test behind a test that was just threaded (`if helper(..)? {`)
                     self.threaded += thread_known_variants(b, bools=True, budget=40)
+        # blocks that no path from the entry reaches any more (arms cut off by the threading
+        # above) are not part of the function
+        self.pruned = 0
+        for b in d["bodies"]:
+            if b["kind"] == "promoted" or not b["blocks"]:
+                continue
+            from .inline import _succ
+            seen, work = set(), [0]
+            while work:
+                i = work.pop()
+                if i in seen or i >= len(b["blocks"]):
+                    continue
+                seen.add(i)
+                t = b["blocks"][i]["term"]
+                nxt = list(_succ(t))
+                if t["k"] == "yield":
+                    nxt += [x for x in (t.get("resume"), t.get("drop")) if x is not None]
+                work.extend(nxt)
+            for blk in b["blocks"]:
+                if not blk["cleanup"] and blk["i"] not in seen:
+                    blk["cleanup"] = True
+                    blk["dead"] = True
+                    self.pruned += 1
         self.split_edges = split_shared_switch_targets(d)
         self.raw = d
         self.meta = d["meta"]
